@@ -1428,3 +1428,22 @@ package server
 //@     ghost mergedG := mergedG + 1
 //@   loop 1
 //@     invariant 1 <= i && i <= len(partials) && mergedG == i - 1 && r == old(partials[0])
+
+// ---------------------------------------------------------------------------
+// C03 / C06: a first query page: the start points are resolved for the requested predicate, direction and scope at one
+// instant taken now, and exactly these are handed to the paged scan with the requested limit
+//@ assumed (*Store).ToRelatedFrom
+//@   pure
+//@ unit (*Store).GetManyRelatedEntitiesBatch
+//@   prop C03 C06
+//@   ghost fromG slice
+//@   ghost nowG int = 0
+//@   requires s != nil && limit >= 0
+//@   at call UnixNano#1
+//@     ghost nowG := $result
+//@   at call ToRelatedFrom#1 before
+//@     assert [C03,C06:start-points-resolved-for-the-request-at-one-instant-taken-now] $arg1 == startPoints && $arg2 == predicate && $arg3 == inverse && $arg4 == datasets && $arg5 == nowG
+//@   at call ToRelatedFrom#1
+//@     ghost fromG := $result0
+//@   at call GetManyRelatedEntitiesAtTime#1 before
+//@     assert [C03:the-resolved-start-points-are-scanned-with-the-requested-limit] $arg1 == fromG && $arg2 == limit && $arg3 == mergePartials
